@@ -3,7 +3,7 @@
 patch=$1; pid=$2; tier=${3:-quick}
 cd /repo || exit 9
 if ! git diff --quiet; then echo "/repo is dirty"; exit 9; fi
-git apply --3way "$patch" 2>/dev/null || git apply "$patch" || { echo "patch does not apply"; exit 9; }
+git apply "$patch" 2>/dev/null || { git checkout -q -- . ; git apply --3way "$patch" 2>/dev/null && ! grep -rq "^<<<<<<< " src; } || { git reset -q; git checkout -q -- . ; echo "patch does not apply"; exit 9; }
 git reset -q  # unstage what --3way staged
 cd /verif
 bin/check "$pid" "$tier"; rc=$?
